@@ -577,6 +577,27 @@ func (e *SpecEnv) call(x *ast.CallExpr) Val {
 			}
 			rng := fmt.Sprintf("(and (<= %s %s) (< %s %s))", lo.T, smtSym(bv), smtSym(bv), hi.T)
 			if id.Name == "forall" {
+				// Re-index by the absolute position k = off + j of the first slice that is
+				// indexed by j directly: the trigger (elem arr k) then has a plain
+				// variable as index and matches every ground element reference of that
+				// array, whatever arithmetic shape its index has.
+				if arr, off, ok := firstDirectElem(body.T, smtSym(bv)); ok {
+					k := smtSym(vc.fresh("q_k"))
+					direct := "(+ " + off + " " + smtSym(bv) + ")"
+					b2 := strings.ReplaceAll(body.T, direct, k)
+					b2 = replaceSym(b2, smtSym(bv), "(- "+k+" "+off+")")
+					rng2 := fmt.Sprintf("(and (<= (+ %s %s) %s) (< %s (+ %s %s)))", off, lo.T, k, k, off, hi.T)
+					return Val{T: fmt.Sprintf("(forall ((%s Int)) (! (=> %s %s) :pattern ((elem %s %s))))", k, rng2, b2, arr, k), Ty: boolT}
+				}
+				// explicit triggers: the element references that mention the bound variable
+				pats := elemPatterns(body.T, smtSym(bv))
+				if len(pats) > 0 {
+					var ps []string
+					for _, p := range pats {
+						ps = append(ps, ":pattern ("+p+")")
+					}
+					return Val{T: fmt.Sprintf("(forall ((%s Int)) (! (=> %s %s) %s))", smtSym(bv), rng, body.T, strings.Join(ps, " ")), Ty: boolT}
+				}
 				return Val{T: fmt.Sprintf("(forall ((%s Int)) (=> %s %s))", smtSym(bv), rng, body.T), Ty: boolT}
 			}
 			return Val{T: fmt.Sprintf("(exists ((%s Int)) (and %s %s))", smtSym(bv), rng, body.T), Ty: boolT}
@@ -657,6 +678,14 @@ func (e *SpecEnv) call(x *ast.CallExpr) Val {
 		case "off":
 			v := e.eval(x.Args[0])
 			return Val{T: "(s.off " + v.T + ")", Ty: types.Typ[types.Int]}
+		case "strlt":
+			// Go's string order (uninterpreted strict total order in opaque-string mode)
+			a, b := e.eval(x.Args[0]), e.eval(x.Args[1])
+			if vc.smtStr {
+				return Val{T: "(str.< " + a.T + " " + b.T + ")", Ty: boolT}
+			}
+			vc.decl("fun:str_lt", "(declare-fun str_lt (Str Str) Bool)")
+			return Val{T: "(str_lt " + a.T + " " + b.T + ")", Ty: boolT}
 		case "strlen":
 			v := e.eval(x.Args[0])
 			return Val{T: vc.slenOf(v.T), Ty: types.Typ[types.Int]}
@@ -670,6 +699,50 @@ func (e *SpecEnv) call(x *ast.CallExpr) Val {
 			if idn, ok := x.Args[0].(*ast.Ident); ok {
 				return Val{T: vc.get(e.cur, vc.ghostVar(idn.Name)), Ty: types.Typ[types.Int]}
 			}
+		case "local":
+			// local("name"): current value of the source-level local variable name of the
+			// function under verification (its phi, or its value when assigned once)
+			lit, ok := x.Args[0].(*ast.BasicLit)
+			if !ok || vc.topFrame == nil {
+				return e.fail("local(\"name\")")
+			}
+			name, _ := strconv.Unquote(lit.Value)
+			var best ssa.Value
+			for v := range vc.topFrame.vals {
+				switch y := v.(type) {
+				case *ssa.Phi:
+					if y.Comment == name && (best == nil || y.Block().Index > best.(*ssa.Phi).Block().Index) {
+						if vc.siteBlock == nil || y.Block() == vc.siteBlock || y.Block().Dominates(vc.siteBlock) {
+							best = y
+						}
+					}
+				}
+			}
+			if best != nil {
+				return vc.topFrame.val(best)
+			}
+			return e.fail("local(%q): no such variable at this point (contract target changed)", name)
+		case "loopvar":
+			// loopvar(k): current value of the range index (first header phi) of loop k
+			lit, ok := x.Args[0].(*ast.BasicLit)
+			if !ok {
+				return e.fail("loopvar(k)")
+			}
+			k, _ := strconv.Atoi(lit.Value)
+			if vc.topFrame != nil {
+				for _, li := range vc.topFrame.loops {
+					if li.ord != k {
+						continue
+					}
+					for _, in := range li.head.Instrs {
+						if phi, ok := in.(*ssa.Phi); ok {
+							return vc.topFrame.val(phi)
+						}
+						break
+					}
+				}
+			}
+			return e.fail("loopvar(%d): no such loop (contract target changed)", k)
 		case "ext":
 			return e.extCall(x)
 		case "ret":
@@ -684,13 +757,8 @@ func (e *SpecEnv) call(x *ast.CallExpr) Val {
 				return e.fail("ret: index must be a literal")
 			}
 			idx, _ := strconv.Atoi(il.Value)
-			for _, k := range sortedKeys(vc.lastRet) {
-				if calleeMatch(k, cn) {
-					r := vc.lastRet[k]
-					if idx < len(r) {
-						return r[idx]
-					}
-				}
+			if r, ok := vc.lookupRet(cn); ok && idx < len(r) {
+				return r[idx]
 			}
 			return e.fail("ret: no call to %s recorded before this point (contract target changed)", cn)
 		case "uf":
@@ -1029,4 +1097,133 @@ func (e *SpecEnv) extCall(x *ast.CallExpr) Val {
 		return Val{T: fname, Ty: rt}
 	}
 	return Val{T: "(" + fname + " " + strings.Join(terms, " ") + ")", Ty: rt}
+}
+
+// elemPatterns returns the distinct `(elem a i)` subterms of t that mention the
+// bound variable bv and no other quantified variable nested inside them.
+func elemPatterns(t, bv string) []string {
+	var out []string
+	seen := map[string]bool{}
+	for i := 0; i+6 <= len(t); i++ {
+		if !strings.HasPrefix(t[i:], "(elem ") {
+			continue
+		}
+		d := 0
+		j := i
+		for ; j < len(t); j++ {
+			if t[j] == '(' {
+				d++
+			} else if t[j] == ')' {
+				d--
+				if d == 0 {
+					break
+				}
+			}
+		}
+		if j >= len(t) {
+			break
+		}
+		sub := t[i : j+1]
+		if !strings.Contains(sub, bv) || seen[sub] {
+			continue
+		}
+		// skip terms that contain another bound variable (q_...) than bv
+		other := false
+		for _, f := range strings.FieldsFunc(sub, func(r rune) bool { return r == ' ' || r == '(' || r == ')' }) {
+			if strings.HasPrefix(f, "q_") && f != bv {
+				other = true
+			}
+		}
+		if other || strings.Contains(sub[1:], "(elem ") {
+			continue
+		}
+		seen[sub] = true
+		out = append(out, sub)
+		if len(out) >= 4 {
+			break
+		}
+	}
+	return out
+}
+
+// firstDirectElem finds the first subterm of the form (elem A (+ O bv)) and
+// returns A and O (neither may mention a quantified variable).
+func firstDirectElem(t, bv string) (arr, off string, ok bool) {
+	for i := 0; i+6 <= len(t); i++ {
+		if !strings.HasPrefix(t[i:], "(elem ") {
+			continue
+		}
+		args := sexprArgs(t[i:])
+		if len(args) != 3 {
+			continue
+		}
+		a, idx := args[1], args[2]
+		ia := sexprArgs(idx)
+		if len(ia) == 3 && ia[0] == "+" && ia[2] == bv && !strings.Contains(a, "q_") && !strings.Contains(ia[1], "q_") {
+			return a, ia[1], true
+		}
+	}
+	return "", "", false
+}
+
+// sexprArgs splits the s-expression at the start of s into its head and arguments.
+func sexprArgs(s string) []string {
+	if len(s) == 0 || s[0] != '(' {
+		return nil
+	}
+	var out []string
+	d := 0
+	start := -1
+	for i := 0; i < len(s); i++ {
+		c := s[i]
+		switch {
+		case c == '(':
+			d++
+			if d == 2 && start < 0 {
+				start = i
+			}
+		case c == ')':
+			d--
+			if d == 1 && start >= 0 {
+				out = append(out, s[start:i+1])
+				start = -1
+			}
+			if d == 0 {
+				if start >= 0 {
+					out = append(out, s[start:i])
+				}
+				return out
+			}
+		case c == ' ':
+			if d == 1 && start >= 0 {
+				out = append(out, s[start:i])
+				start = -1
+			}
+		default:
+			if d == 1 && start < 0 {
+				start = i
+			}
+		}
+	}
+	return nil
+}
+
+// replaceSym replaces whole-symbol occurrences of sym in t.
+func replaceSym(t, sym, with string) string {
+	var b strings.Builder
+	for i := 0; i < len(t); {
+		if strings.HasPrefix(t[i:], sym) {
+			before := i == 0 || t[i-1] == ' ' || t[i-1] == '('
+			j := i + len(sym)
+			after := j >= len(t) || t[j] == ' ' || t[j] == ')'
+			if before && after {
+				b.WriteString(with)
+				i = j
+				continue
+			}
+		}
+		b.WriteByte(t[i])
+		i++
+	}
+	return b.String()
 }
